@@ -1615,6 +1615,13 @@ bool SchindelhauerTMCG::TMCG_VerifyStackEquality
 	out << TMCG_SecurityLevel << std::endl;
 	if (s.size() != s2.size())
 		return false;
+	// check whether the cards of the shuffled stack have the right dimensions
+	for (size_t i = 0; i < s2.size(); i++)
+	{
+		if ((s2[i].z.size() != TMCG_Players) ||
+			(s2[i].z[0].size() != TMCG_TypeBits))
+				return false;
+	}
 	mpz_init(foo), mpz_init(bar);
 	try
 	{
